@@ -188,21 +188,52 @@ def _prefilter_conservative(ctx, b, bi, t):
         small = strip(src[2]) if okl else None
     ctx.check(ok and okl, 'R10.8', 'prefilter/box-size', where, b.path, 'the box must be the local bounding box of the smaller shape loosened by r_min (the safety distance of this pair)',
               found=show(sh, maxdepth=7))
-    # placement: small transform * translation(centre of the same box)
-    okp = False
-    if isinstance(tr, tuple) and tr[0] == 'call' and cname(tr[1]).split('::')[-1] == 'mul' and aabb is not None:
-        base, shift = strip(tr[2]), tr[3]
-        centres = mir.subterms(shift, lambda x: x[0] == 'call' and cname(x[1]).split('::')[-1] == 'center')
-        same_box = len(centres) == 1 and strip(centres[0][2]) == aabb
-        paired = isinstance(base, tuple) and base[0] == 'fld' and isinstance(small, tuple) and small[0] == 'fld' and strip(base[1]) == strip(small[1]) \
-            and (small[2], base[2]) == ('0', '1')
-        okp = same_box and paired
-    ctx.check(okp, 'R10.8', 'prefilter/box-placement', where, b.path, 'the solid box must sit at the centre of that same bounding box, in the frame of the smaller shape', found=show(tr, maxdepth=7))
+    # placement and other side, decided per case of the test(s) that choose which body is boxed: whichever body it is, the box
+    # sits at the centre of that same bounding box in *its* frame, and is tested against the *other* body under that body's
+    # own transform (how the smaller body is chosen does not matter for the verdict, the pairing does)
+    import itertools
+    conds = []
+    for a in args:
+        for c in util.branch_conditions(b, a):
+            if c not in conds:
+                conds.append(c)
+    cases = [dict(zip(conds, vals)) for vals in itertools.product((True, False), repeat=len(conds))] if len(conds) <= 3 else [{}]
+    okp = oko = True
+    foundp = foundo = ''
+    for case in cases:
+        R = [_uncast(util.resolve_case(b, a, case)) for a in args]
+        shc, trc, ooc, otc = R[si], R[ti], R[so], R[to]
+        sm = mir.subterms(shc, lambda x: x[0] == 'call' and cname(x[1]).split('::')[-1] == 'local_aabb')
+        boxed = _self_fld(sm[0][2]) if len(sm) == 1 else None
+        aabbs = mir.subterms(shc, lambda x: x[0] == 'call' and cname(x[1]).split('::')[-1] == 'loosened')
+        aabb_c = strip(aabbs[0]) if len(aabbs) == 1 else None
+        placed = False
+        if isinstance(trc, tuple) and trc[0] == 'call' and cname(trc[1]).split('::')[-1] == 'mul' and aabb_c is not None and boxed is not None:
+            base, shift = strip(trc[2]), strip(trc[3])
+            centres = mir.subterms(shift, lambda x: x[0] == 'call' and cname(x[1]).split('::')[-1] == 'center')
+            same_box = bool(centres) and all(strip(c[2]) == aabb_c for c in centres)
+            comp_ok = True
+            if isinstance(shift, tuple) and shift[0] == 'call' and cname(shift[1]).split('::')[-1] == 'new' and len(shift) == 5:
+                # Translation3::new(c.x, c.y, c.z): the three components in order
+                comp = []
+                for a3 in shift[2:5]:
+                    a3 = strip(a3)
+                    comp.append(a3[2] if isinstance(a3, tuple) and a3[0] == 'fld' else None)
+                comp_ok = comp == ['x', 'y', 'z']
+            bf = _self_fld(base)
+            placed = same_box and comp_ok and bf is not None and bf.startswith('transform') and boxed.startswith('shape') and bf[-1] == boxed[-1]
+        if not placed:
+            okp = False
+            foundp = show(trc, maxdepth=7)
+        of, otf = _self_fld(ooc), _self_fld(otc)
+        other = of is not None and otf is not None and of.startswith('shape') and otf.startswith('transform') and of[-1] == otf[-1] and \
+            boxed is not None and of[-1] != boxed[-1]
+        if not other:
+            oko = False
+            foundo = '%s / %s' % (show(otc, maxdepth=4), show(ooc, maxdepth=4))
+    ctx.check(okp, 'R10.8', 'prefilter/box-placement', where, b.path, 'the solid box must sit at the centre of that same bounding box, in the frame of the smaller shape', found=foundp)
     # other side: the larger shape with its own transform
-    oo, ot = args[so], args[to]
-    oko = isinstance(oo, tuple) and isinstance(ot, tuple) and oo[0] == 'fld' and ot[0] == 'fld' and strip(oo[1]) == strip(ot[1]) and (oo[2], ot[2]) == ('2', '3') and \
-        (small is None or strip(oo[1]) == strip(small[1]))
-    ctx.check(oko, 'R10.8', 'prefilter/other-side', where, b.path, 'the box must be tested against the larger shape under the larger shape\'s transform', found='%s / %s' % (show(ot, maxdepth=4), show(oo, maxdepth=4)))
+    ctx.check(oko, 'R10.8', 'prefilter/other-side', where, b.path, 'the box must be tested against the larger shape under the larger shape\'s transform', found=foundo)
 
 
 def _decision(ctx, prog):
@@ -269,14 +300,25 @@ def _decision(ctx, prog):
         _prefilter_conservative(ctx, b, bi, t)
     # reported pair = (min(i,j), max(i,j))
     ok = False
+    pair_sites = []
     for i2, j2, st in b.stmts():
-        if st['rv']['k'] == 'agg' and len(st['rv']['ops']) == 2 and 'Tuple' in str(st['rv']['kind']):
+        if st['rv']['k'] == 'agg' and len(st['rv']['ops']) == 2 and 'Tuple' in str(st['rv']['kind']) and 'u16' in b.local_ty(st['lhs']['local']):
             tt = b.rv_term(st['rv'], (i2, j2))
-            s = show(tt, maxdepth=5)
-            if 'min(' in s and 'max(' in s:
-                a, c = strip(tt[2]), strip(tt[3])
-                ok = cname(a[1]).endswith('::min') and cname(c[1]).endswith('::max') and {_self_fld(strip(a[2])), _self_fld(strip(a[3]))} == {'i', 'j'} \
-                    and {_self_fld(strip(c[2])), _self_fld(strip(c[3]))} == {'i', 'j'}
+            a, c = strip(tt[2]), strip(tt[3])
+            if isinstance(a, tuple) and a[0] == 'call' and isinstance(c, tuple) and c[0] == 'call':
+                pair_sites.append(cname(a[1]).endswith('::min') and cname(c[1]).endswith('::max') and len(a) == 4 and len(c) == 4 and
+                                  {_self_fld(strip(a[2])), _self_fld(strip(a[3]))} == {'i', 'j'} and {_self_fld(strip(c[2])), _self_fld(strip(c[3]))} == {'i', 'j'})
+            elif {_self_fld(a), _self_fld(c)} == {'i', 'j'}:
+                # (x, y) written out on the edge where x <= y was established
+                ordered = False
+                for g, k, sw in b.guard_terms(i2):
+                    bd = util.as_bound(g, opw.truth(k))
+                    if bd is not None and _self_fld(bd[1]) == _self_fld(a) and _self_fld(bd[2]) == _self_fld(c):
+                        ordered = True
+                pair_sites.append(ordered)
+            else:
+                pair_sites.append(False)
+    ok = bool(pair_sites) and all(pair_sites)
     ctx.check(ok, 'R10.4', 'decision/report', b.where(0), b.path, 'the reported pair must be (min(i,j), max(i,j))')
     # constants
     consts = {}
